@@ -373,6 +373,21 @@ func genHttp2Conv(r *Rand, tier string, emit func(sx.Sx)) {
 		}
 		emit(sx.L(sx.L(cf...), sx.L(sf...)))
 	}
+	// the header table raised in two steps between two header blocks of the server: the next block opens with two
+	// dynamic table size updates (the recorded finding h2-hpack-two-size-updates; in one step it is accepted)
+	for _, ups := range [][]string{{"tableup8k", "tableup64k"}, {"tableup64k"}, {"tableup64k", "tableup8k"}} {
+		cf := []sx.Sx{sx.A("c"),
+			sx.L(sx.A("h"), sx.N(1), sx.A("true"), sx.L(kv(":method", "GET"), kv(":scheme", "http"), kv(":path", "/a"), kv(":authority", "svc.example")), sx.N(0)),
+			sx.L(sx.A("h"), sx.N(3), sx.A("true"), sx.L(kv(":method", "GET"), kv(":scheme", "http"), kv(":path", "/b"), kv(":authority", "svc.example")), sx.N(0))}
+		sf := []sx.Sx{sx.A("s"), sx.L(sx.A("h"), sx.N(1), sx.A("false"), sx.L(kv(":status", "200"), kv("x-first", "one")), sx.N(0))}
+		for _, u := range ups {
+			sf = append(sf, sx.L(sx.A("o"), sx.A(u), sx.N(0)))
+		}
+		sf = append(sf, sx.L(sx.A("d"), sx.N(1), sx.A("true"), sx.B([]byte("body-a"))),
+			sx.L(sx.A("h"), sx.N(3), sx.A("false"), sx.L(kv(":status", "200"), kv("x-first", "one"), kv("x-second", "two")), sx.N(0)),
+			sx.L(sx.A("d"), sx.N(3), sx.A("true"), sx.B([]byte("body-b"))))
+		emit(sx.L(sx.L(cf...), sx.L(sf...)))
+	}
 }
 
 // Family http2.raw (C01): frame scripts no peer would send, all of which x/net/http2's Framer
